@@ -617,15 +617,17 @@ package jd
 
 //@ contract verifBagSemantics
 //@   bounded
-//@   universe a verifNestedBags(5)
-//@   universe b verifNestedBags(5)
-//@   universe c verifNestedBags(5)
+//@   cap 200000 3000000
+//@   universe a verifNestedBags(6)
+//@   universe b verifNestedBags(6)
+//@   universe c verifNestedBags(6)
 //@   universe options [][]Option{{SET}, {MULTISET}}
 //@   ensures_bounded ret0
 //@   carries C08
 
 //@ contract verifBagEquals
 //@   bounded
+//@   cap 200000 3000000
 //@   universe a verifNestedBagNodes()
 //@   universe b verifNestedBagNodes()
 //@   requires validNode(a) && validNode(b)
